@@ -178,8 +178,17 @@ func c18Run(c *vfCtx, cs c18Case) {
 		c.count("invalid_texts", 1)
 		if got != "failed" || len(vfMutOps(ops)) > 0 || len(vfSnapDir(dir)) > 0 {
 			c.violation("", fmt.Sprintf("invalid YAML %q: signalled %s, mutating operations %s", vfClip(cs.Text), got, vfShowOps(vfMutOps(ops))), cs)
+			t.end()
+			return
 		}
+		// the rejected call was the test's first call: the next one addresses slot 2
+		mkv := t.mark()
+		cfg.MatchYAML(t, "ok: 1\n")
 		t.end()
+		es, perr := vfParse(vfSnapDir(dir)["f.snap"].Data)
+		if o := t.outcome(mkv); o != "added" || perr != nil || len(es) != 1 || es[0].ID != "TestA - 2" {
+			c.violation("", fmt.Sprintf("after the rejected call with %q the next call signalled %s and the file holds %s (%v): it must be stored as [TestA - 2]", vfClip(cs.Text), o, vfShowEntries(es), perr), cs)
+		}
 		return
 	}
 	c.addSet("nontrivial", vfHashJSON(cs))
